@@ -399,6 +399,7 @@ class Table(Vector):
 		
 		# After initialization, check if setting an existing column
 		if self._column_map is not None:
+			self._fresh_column_map()  # a column may have been renamed through a view
 			# Parse for indexed accessor pattern (e.g., 'total__5')
 			base_name, col_idx_indexed = _parse_indexed_attr(attr)
 			
